@@ -131,6 +131,10 @@ func VerifC14_Parse() {
 			aField(1, "item", parser.FieldType_Default, aType("Item")), // inc's own Item, unprefixed
 		}},
 	}
+	// a base service in the included file; its functions name inc's own types without a prefix
+	inc.Services = []*parser.Service{{Name: "Base", Functions: []*parser.Function{
+		{Name: "Inherited", FunctionType: aType("Item"), Arguments: []*parser.Field{aField(1, "bw", parser.FieldType_Default, aType("Wrapper"))}},
+	}}}
 	main := &parser.Thrift{Filename: "main.thrift"}
 	main.Includes = []*parser.Include{{Path: "inc.thrift", Reference: inc}}
 	main.Typedefs = []*parser.Typedef{{Alias: "MyID", Type: aType("i64")}}
@@ -164,7 +168,7 @@ func VerifC14_Parse() {
 				Throws: []*parser.Field{aField(1, "e", parser.FieldType_Default, aType("Err"))}},
 			{Name: "Ping", Oneway: true, Void: true, FunctionType: aType("void"), Arguments: []*parser.Field{aField(1, "i", parser.FieldType_Default, aType("Item"))}},
 		}},
-		{Name: "S2", Functions: []*parser.Function{
+		{Name: "S2", Extends: "inc.Base", Reference: &parser.Reference{Name: "Base", Index: 0}, Functions: []*parser.Function{
 			{Name: "Other", FunctionType: aType("inc.Item"), Arguments: []*parser.Field{aField(1, "w", parser.FieldType_Default, aType("inc.Wrapper"))}},
 		}},
 	}
@@ -211,14 +215,15 @@ func VerifC14_Parse() {
 	do := xFn{"Do", false, "req", req, resp, errS}
 	ping := xFn{"Ping", true, "i", mainItem, nil, nil}
 	other := xFn{"Other", false, "w", incWrapper, incItem, nil}
+	inherited := xFn{"Inherited", false, "bw", incWrapper, incItem, nil} // S2 extends inc.Base
 	var want []xFn
 	switch mode {
 	case meta.LastServiceOnly:
-		want = []xFn{other}
+		want = []xFn{other, inherited}
 	case meta.FirstServiceOnly:
 		want = []xFn{do, ping}
 	default:
-		want = []xFn{do, ping, other}
+		want = []xFn{do, ping, other, inherited}
 	}
 	vrt.Assert(len(sd.Functions()) == len(want), "C14.parse.functions.exactly-declared")
 	for _, f := range want {
@@ -256,4 +261,83 @@ func VerifC14_Parse() {
 		}
 	}
 	vrt.Assert(sd.Functions()["Nope"] == nil, "C14.parse.function.undeclared.nil")
+}
+
+func init() { vrt.Register("VerifC14_ThriftBase", VerifC14_ThriftBase) }
+
+// VerifC14_ThriftBase: EnableThriftBase marks the base.Base / base.BaseResp field of the ROOT request / response
+// struct only; a nested struct that declares such a field keeps an ordinary field: not a base field, no
+// GetRequestBase / GetResponseBase, and its requiredness recorded in the requires bitmap.
+//   Req{1: InQ q; 255: base.Base Base}, InQ{1: i32 x; 255: REQ base.Base Base}
+//   Resp{1: InR r; 2: list<InR> rs; 255: base.BaseResp BaseResp}, InR{1: i32 y; 255: REQ base.BaseResp BaseResp}
+func VerifC14_ThriftBase() {
+	enable := vrt.Param("ENABLE") != 0
+	nreq := []parser.FieldType{parser.FieldType_Default, parser.FieldType_Required, parser.FieldType_Optional}[vrt.Param("NREQ")]
+	if vrt.Symbolic() {
+		vrt.Redirect("github.com/cloudwego/thriftgo/semantic.ResolveSymbols", func(*parser.Thrift) error { return nil })
+	}
+	base := &parser.Thrift{Filename: "base.thrift"}
+	base.Structs = []*parser.StructLike{
+		{Category: "struct", Name: "Base", Fields: []*parser.Field{aField(1, "LogID", parser.FieldType_Default, aType("string"))}},
+		{Category: "struct", Name: "BaseResp", Fields: []*parser.Field{aField(1, "StatusMessage", parser.FieldType_Default, aType("string"))}},
+	}
+	main := &parser.Thrift{Filename: "main.thrift"}
+	main.Includes = []*parser.Include{{Path: "base.thrift", Reference: base}}
+	main.Structs = []*parser.StructLike{
+		{Category: "struct", Name: "InQ", Fields: []*parser.Field{
+			aField(1, "x", parser.FieldType_Default, aType("i32")),
+			aField(255, "Base", nreq, aType("base.Base")),
+		}},
+		{Category: "struct", Name: "InR", Fields: []*parser.Field{
+			aField(1, "y", parser.FieldType_Default, aType("i32")),
+			aField(255, "BaseResp", nreq, aType("base.BaseResp")),
+		}},
+		{Category: "struct", Name: "Req", Fields: []*parser.Field{
+			aField(1, "q", parser.FieldType_Default, aType("InQ")),
+			aField(255, "Base", parser.FieldType_Default, aType("base.Base")),
+		}},
+		{Category: "struct", Name: "Resp", Fields: []*parser.Field{
+			aField(1, "r", parser.FieldType_Default, aType("InR")),
+			aField(2, "rs", parser.FieldType_Default, aList(aType("InR"))),
+			aField(255, "BaseResp", parser.FieldType_Default, aType("base.BaseResp")),
+		}},
+	}
+	main.Services = []*parser.Service{{Name: "S", Functions: []*parser.Function{
+		{Name: "Do", FunctionType: aType("Resp"), Arguments: []*parser.Field{aField(1, "req", parser.FieldType_Default, aType("Req"))}},
+	}}}
+	sd, err := parse(context.Background(), main, meta.LastServiceOnly, Options{EnableThriftBase: enable})
+	vrt.Assert(err == nil && sd != nil, "C14.thriftbase.parse.noerror")
+	if err != nil || sd == nil {
+		return
+	}
+	vrt.Reach("parsed")
+	fn := sd.Functions()["Do"]
+	vrt.Assert(fn != nil, "C14.thriftbase.function.found")
+	if fn == nil {
+		return
+	}
+	wantReq := map[parser.FieldType]Requireness{parser.FieldType_Default: DefaultRequireness, parser.FieldType_Required: RequiredRequireness, parser.FieldType_Optional: OptionalRequireness}[nreq]
+	nested := func(st *StructDescriptor, label string) {
+		f := st.FieldById(255)
+		vrt.Assert(f != nil, label+".field.found")
+		if f == nil {
+			return
+		}
+		vrt.Assert(!f.IsRequestBase() && !f.IsResponseBase(), label+".not-a-base-field")
+		vrt.Assert(st.GetRequestBase() == nil && st.GetResponseBase() == nil, label+".no-base-accessor")
+		vrt.Assert(f.Required() == wantReq, label+".requiredness")
+		vrt.Assert(st.Requires().IsSet(255) == (wantReq != OptionalRequireness), label+".requires-bitmap")
+		vrt.Assert(f.Type().Type() == STRUCT && f.Type().Struct().FieldById(1) != nil, label+".type")
+	}
+	rq := fn.Request().Struct().FieldById(1).Type().Struct()
+	qb := rq.FieldById(255)
+	vrt.Assert(qb != nil && qb.IsRequestBase() == enable && !qb.IsResponseBase(), "C14.thriftbase.request.root-base-field")
+	vrt.Assert((rq.GetRequestBase() != nil) == enable, "C14.thriftbase.request.root-accessor")
+	nested(rq.FieldById(1).Type().Struct(), "C14.thriftbase.request.nested")
+	rs := fn.Response().Struct().FieldById(0).Type().Struct()
+	rb := rs.FieldById(255)
+	vrt.Assert(rb != nil && rb.IsResponseBase() == enable && !rb.IsRequestBase(), "C14.thriftbase.response.root-base-field")
+	vrt.Assert((rs.GetResponseBase() != nil) == enable, "C14.thriftbase.response.root-accessor")
+	nested(rs.FieldById(1).Type().Struct(), "C14.thriftbase.response.nested")
+	nested(rs.FieldById(2).Type().Elem().Struct(), "C14.thriftbase.response.list-element")
 }
